@@ -55,7 +55,7 @@ def sample_flags(rng):
 
 def gen_case(chk, i):
     rng = chk.rng("case", i)
-    fam = rng.choice(["types", "types", "funcs", "names", "names", "cxx", "cxx-classes", "hostile", "hostile-cxx"])
+    fam = rng.choice(["types", "types", "funcs", "names", "names", "cxx", "cxx-classes", "cxx-graph", "hostile", "hostile-cxx"])
     d = chk.dir("c%d" % (i % 64))
     cargs, ext = [], "h"
     model = None
@@ -75,6 +75,13 @@ def gen_case(chk, i):
         # are Rust keywords or the names bindgen itself gives to wrapper methods and synthetic fields (new, new1, destruct, _base, vtable_, ...)
         from .. import hcxx
         text, ext, cargs = hcxx.header(hcxx.generate(rng, hostile_names=True)), "hpp", ["-std=c++14"]
+    elif fam == "cxx-graph":
+        # class / template graphs (bases, virtual methods, destructors, copy constructors, templates instantiated with own parameters,
+        # builtins and classes, typedef chains, bit-fields) in a random valid declaration order; layout is C02's, here the items must compile
+        from .. import gen_graph
+        g_ = gen_graph.generate(rng, lang="cxx")
+        ords_, _n = gen_graph.valid_orders(g_, rng, 1)
+        text, ext, cargs = gen_graph.render(g_, ords_[0], hoist=rng.random() < 0.5), "hpp", ["-std=c++14"]
     elif fam == "hostile":
         parts = rng.sample(hostile.C, rng.randint(1, 3))
         text = "\n".join(p[1] for p in parts) + "\n"
@@ -96,8 +103,10 @@ def gen_case(chk, i):
         cargs = ["-I", corpus.HEADERS] + list(e[2])
     p = write(os.path.join(d, "c%d.%s" % (i, ext)), text)
     flags = sample_flags(rng)
-    if fam.startswith("hostile") or fam in ("cxx", "cxx-classes"):
+    if fam.startswith("hostile") or fam in ("cxx", "cxx-classes", "cxx-graph"):
         flags = [f for f in flags if f not in NOT_FOR_HOSTILE]
+    if fam == "cxx-graph" and "--no-layout-tests" not in flags:
+        flags = flags + ["--no-layout-tests"]
     if ext == "hpp":
         # C-only naming options: with C++ namespaces they give inconsistent names (see DESIGN.md §6)
         flags = [f for f in flags if f not in ("--c-naming", "--disable-nested-struct-naming")]
@@ -173,6 +182,10 @@ def signature(err, text, flags, model, fam):
     pr = optsets.model_predicates(model) if model is not None else None
     if fam.startswith("names:") or fam.startswith("hostile:"):
         return "c01." + fam
+    if fam == "cxx-graph" and codes in (["E0412"], ["E0425"]) and set(re.findall(r"cannot find type `(\w+)` in this scope", err)) <= {"A", "B"} \
+            and re.search(r"T\d+<[^<>]*\b[AB]\b[^<>]*,[^<>]*\b(?:int|char|short|long|bool|float|double|unsigned long|long long|C\d+)\b[^<>]*>|"
+                          r"T\d+<[^<>]*\b(?:int|char|short|long|bool|float|double|unsigned long|long long|C\d+)\b[^<>]*,[^<>]*\b[AB]\b[^<>]*>", text):
+        return "c01.template-mixed-dependent-instantiation"
     if fam == "cxx-classes" and "E0124" in codes and set(codes) <= {"E0124", "E0080"}:
         dup = set(re.findall(r"field `(\w+)` is already declared", err))
         if dup and dup <= {"vtable_", "_base", "_base_1"} and all(re.search(r"\b%s;" % re.escape(x), text) for x in dup):
